@@ -815,6 +815,11 @@ class Session:
         req = {"op": name, "to": self.ext_path(st["to"])}
         sop = {"op": "extract", "kind": st["kind"], "checked": st["checked"], "to": st["to"]}
         self._target(st, req, sop)
+        if st["to"] in getattr(self, "tracked_modes", ()):
+            # the explicit destination of an extraction is the caller's to overwrite - permission
+            # bits included (a copy carries the source's): its mode is no longer watched
+            self.tracked_modes.discard(st["to"])
+            self.trace.append({"ev": "env", "op": {"op": "env_ext", "id": st["to"] + "#mode", "b": []}})
         resp = self.raw_call(lane, req)
         if resp.get("ok"):
             v = resp["val"]
@@ -1318,7 +1323,7 @@ class Session:
                                                "addr": {"a": algo, "d": blob_id}, "c": c}})
         self._quiet_state()
 
-    def env_damage_inplace(self, algo, blob_id, data):
+    def env_damage_inplace(self, algo, blob_id, data, keep_mtime=False):
         """Overwrite the content file of an address IN PLACE (same inode): every hard link of it
         outside the cache - the destinations of earlier hard_link extractions - changes with it,
         and the trace says so (one env_ext event per alias) before the state is logged."""
@@ -1327,6 +1332,8 @@ class Session:
         with open(p, "r+b") as f:
             f.truncate(0)
             f.write(data)
+        if keep_mtime:
+            os.utime(p, ns=(st0.st_atime_ns, st0.st_mtime_ns))
         bid = self.u.blob_id_of_bytes(data)
         self.trace.append({"ev": "env", "op": {"op": "env_content", "addr": {"a": algo, "d": blob_id},
                                                "c": [{"k": "file", "b": bid}]}})
@@ -1419,6 +1426,13 @@ def _damage(data, st):
         return data[:off] + bytes.fromhex(st["bytes"]) + data[off:]
     if mode == "set":
         return bytes.fromhex(st["bytes"])
+    if mode == "pad_to":
+        # a junk line in FRONT of the records, sized so that the file is exactly a multiple of m
+        # bytes long (read-buffer sizes): the last record - which no newline terminates - ends
+        # precisely where a full buffer ends
+        m = st["multiple"]
+        n = (-(len(data) + 1)) % m
+        return b"\n" + b"#" * n + data if data.startswith(b"\n") else b"#" * n + b"\n" + data
     if mode == "hash_field":
         # the index-th record line keeps characters [a, b) of its checksum field (+ pad) in front
         # of the unchanged tab and payload
@@ -1615,7 +1629,7 @@ def run_program(sess, prog, on_step=None):
                     new = _damage(open(p, "rb").read(), st)
                     if new is not None:
                         if st.get("inplace"):
-                            sess.env_damage_inplace(algo, bid, new)
+                            sess.env_damage_inplace(algo, bid, new, keep_mtime=bool(st.get("keep_mtime")))
                         else:
                             sess.env_set_content(algo, bid, data=new)
             results.append(None)
